@@ -3,8 +3,8 @@ import Aergo.Props.C01
 #print axioms Aergo.Props.C01.subBalance_exact
 #print axioms Aergo.Props.C01.validate_covers_fee
 #print axioms Aergo.Props.C01.executeTx_conserves_partial
-#print axioms Aergo.Props.C01.setOwner_owner_is_sender_burns
-#print axioms Aergo.Props.C01.name_owner_is_name_contract_burns
+#print axioms Aergo.Props.C01.setOwner_owner_is_sender_conserves
+#print axioms Aergo.Props.C01.name_owner_is_name_contract_conserves
 #print axioms Aergo.Props.C01.fee_check_after_vm_commit_mints
 #print axioms Aergo.Props.C01.receipt_fee
 #print axioms Aergo.Props.C01.votingReward_conserves
